@@ -211,7 +211,8 @@ class Agent(dbus.service.Object):
             except:
                 pass
 
-        for hdl in self._handlers:
+        # each handler removes itself from the list when it closes
+        for hdl in tuple(self._handlers):
             hdl.close()
 
         if tuple(self.locations):
